@@ -14,6 +14,7 @@ EXPLANATION = (
     "of an exported constructor, public method or public function; (R2) no mutable default argument ({} / []) is mutated, "
     "directly or after being stored into self; (R3) no runtime store into class attributes or module globals; (R4) the "
     "_remove_empty_* helpers do not mutate the solution they are given and getters return the cached solution.  "
+    " (R5) `threads` is set per model but HiGHS sizes one scheduler per process: optimize() resets the scheduler when the requested count differs from the one last used; the class attribute recording that count is a tabled exception of R3 whose premise (read only in the test guarding the reset) is checked. "
     "Equality of results across histories as such is NOT decided - only that these channels are closed."
 )
 DECIDED = ["caller-owned graphs, option dicts, constraint and ignore lists are never written (alias + effect analysis)",
